@@ -557,8 +557,8 @@ func monC08(f *Facts, explicitCancel bool) []Violation {
 				}
 			}
 		}
-		// (4)
-		if plainSuccess(fj) {
+		// (4) "reported completed, not canceled and without error": the error of the job is its LastError
+		if fj.Completed && !fj.Canceled && fj.LastError == "" {
 			for _, t := range fj.Tasks {
 				r := exitOf[t.Name]
 				if r == nil || r.Exit < 0 || !exitOK(r.ExitKind) {
@@ -1040,6 +1040,10 @@ func monC16(w *World, f *Facts) []Violation {
 		if fj.StartDelay != pd.StartDelay {
 			vs = append(vs, Violation{Property: "C16", Rule: "snapshot-delay", Norm: "job-delay-not-from-accept-time-definition",
 				Msg: fmt.Sprintf("job %d carries start_delay %v, the definition at accept time says %v", idx, fj.StartDelay, pd.StartDelay)})
+		}
+		if fj.Started() && fj.Start < fj.Created+pd.StartDelay {
+			vs = append(vs, Violation{Property: "C16", Rule: "snapshot-delay", Norm: "job-starts-before-its-accept-time-delay",
+				Msg: fmt.Sprintf("job %d was accepted at %v under start_delay %v but started at %v", idx, fj.Created, pd.StartDelay, fj.Start)})
 		}
 		// task set, dependencies in the reported job
 		names := map[string]bool{}
